@@ -164,6 +164,14 @@ func runC10(c *Ctx) {
 	c.rule("R-RING-MIRROR", 4, "every store A.next = B has in the same block a store B.prev = A and vice versa")
 	c.rule("R-YIELD", 4, "Stack.Each, List.Each, Queue.Each, ring.scan/Each stop after f returned false")
 	ruleNoopGuard(c, "ring")
+	c.rule("R-LEN-EFFECT", 3, "every path through a Stack method that rewrites the list leaves its length at L0+1 (Push, Add), L0−1 (Pop), 0 (Clear) or unchanged")
+	if lf := firstSliceField(P, "stack", "Stack"); lf != nil {
+		ruleLenEffect(c, "R-LEN-EFFECT", "stack", "Stack", lf, map[string]lform{
+			"Push": latom("L0").add(lconst(1), 1), "Add": latom("L0").add(lconst(1), 1),
+			"Pop": latom("L0").add(lconst(1), -1), "Clear": lconst(0)})
+	} else {
+		c.undecided("ANCHOR", "stack.Stack slice field", 0, "not found")
+	}
 
 	m := &mlinkModel{P: P, eff: newEff(P), validates: map[*ssa.Function]bool{}, storesPred: map[*ssa.Function]bool{}}
 	m.cursorT = P.Named("mlink", "Cursor")
@@ -908,4 +916,14 @@ func ruleNoopGuard(c *Ctx, pkg string) {
 				fmt.Sprintf("the function returns without editing when %s.%s == %s, but it never stores %s into %s.%s: the equality tested is not the one its writes would establish, so cases that need the edit (or cases that do not) are misjudged", ksym(base), f.Name(), ksym(y), ksym(y), ksym(base), f.Name()))
 		}
 	}
+}
+
+// firstSliceField: the (only) slice-typed field of pkg.typ, through embedded structs.
+func firstSliceField(P *Prog, pkg, typ string) *types.Var {
+	for _, f := range P.FieldsDeep(pkg, typ) {
+		if _, ok := f.Type().Underlying().(*types.Slice); ok {
+			return f
+		}
+	}
+	return nil
 }
